@@ -79,6 +79,27 @@ def _lemmas(world):
 _old_install = install
 
 
+def _helpers(world):
+    """the well-array helpers of robotools.transform agree with the labware's own id array and index map"""
+    from pyvc.params import sint
+
+    def rc(ex):
+        return {"R": sint("R"), "C": sint("C")}
+
+    req = ["R >= 1", "R <= 26", "C >= 1"]
+    register(world, Contract(
+        func="robotools.transform.make_well_array", serves=["C08", "C15"],
+        scenarios=[Scenario("R rows x C columns", rc, requires=req)],
+        ensures=[("ids-row-letter-and-2-digit-column", "same(result, arr2(R, C, lambda r, c: well(r, c + 1)))", ["C08", "C15"])],
+    ))
+    register(world, Contract(
+        func="robotools.transform.make_well_index_dict", serves=["C08", "C15"],
+        scenarios=[Scenario("R rows x C columns", rc, requires=req)],
+        ensures=[("ids-to-indices", "index_dict_ok(result, R, C)", ["C08", "C15"])],
+    ))
+
+
 def install(world):  # noqa: F811
     _old_install(world)
     _lemmas(world)
+    _helpers(world)
